@@ -135,11 +135,11 @@ Theorem gen_tree_run_metaepoch_eq c fuel s e : gen_tree_run_metaepoch c fuel s e
 Proof. unfold gen_tree_run_metaepoch, run_metaepoch. dsolve. Qed.
 #[export] Hint Rewrite gen_tree_run_metaepoch_eq : gendrv.
 
-Lemma sprout_child_eq c fuel it1 seeds target x s e :
-  gen_tree__do_sprout_for2 c fuel it1 seeds target x s e = sprout_child (fst it1) target s e.
+Lemma sprout_child_eq c fuel it1 target x s e :
+  gen_tree__do_sprout_for2 c fuel it1 target x s e = sprout_child (fst it1) target s e.
 Proof. unfold gen_tree__do_sprout_for2, sprout_child. dsolve. Qed.
-Lemma sprout_child_loop c fuel it1 seeds target xs s e :
-  for_ xs (gen_tree__do_sprout_for2 c fuel it1 seeds target) s e = for_ xs (fun _ => sprout_child (fst it1) target) s e.
+Lemma sprout_child_loop c fuel it1 target xs s e :
+  for_ xs (gen_tree__do_sprout_for2 c fuel it1 target) s e = for_ xs (fun _ => sprout_child (fst it1) target) s e.
 Proof. apply for_ext. intros. apply sprout_child_eq. Qed.
 #[export] Hint Rewrite sprout_child_loop : gendrv.
 Lemma sprout_child_never_returns p target (x : Z) s e r : sprout_child p target s e = Some r -> fst (fst r) = false.
@@ -147,25 +147,25 @@ Proof. unfold sprout_child. dunf. repeat (dcase; cbn beta iota zeta; dunf); intr
 Lemma sprout_children_never_return p target (xs : list Z) s e b s1 e1 :
   for_ xs (fun _ => sprout_child p target) s e = Some (b, s1, e1) -> b = false.
 Proof. intros H. apply (for_false (fun _ : Z => sprout_child p target)) in H; [exact H|]. intros x. apply (sprout_child_never_returns p target x). Qed.
-Lemma sprout_parent_eq c fuel seeds pk s e :
-  gen_tree__do_sprout_for1 c fuel seeds pk s e = sprout_parent pk s e.
+Lemma sprout_parent_eq c fuel pk s e :
+  gen_tree__do_sprout_for1 c fuel pk s e = sprout_parent pk s e.
 Proof.
   unfold gen_tree__do_sprout_for1, sprout_parent. dunf. rewrite ?Nat.add_1_r. autorewrite with gendrv.
   destruct (for_ (snd pk) _ s e) as [[[b s1] e1]|] eqn:E; [|reflexivity]. apply sprout_children_never_return in E. now subst b.
 Qed.
-Lemma sprout_parent_loop c fuel seeds xs s e :
-  for_ xs (gen_tree__do_sprout_for1 c fuel seeds) s e = for_ xs sprout_parent s e.
+Lemma sprout_parent_loop c fuel xs s e :
+  for_ xs (gen_tree__do_sprout_for1 c fuel) s e = for_ xs sprout_parent s e.
 Proof. apply for_ext. intros. apply sprout_parent_eq. Qed.
 #[export] Hint Rewrite sprout_parent_loop : gendrv.
 Theorem gen_tree__do_sprout_eq c fuel seeds s e : gen_tree__do_sprout c fuel seeds s e = do_sprout_b seeds s e.
 Proof. unfold gen_tree__do_sprout, do_sprout_b. dsolve. Qed.
 #[export] Hint Rewrite gen_tree__do_sprout_eq : gendrv.
 
-Lemma hib_body_eq c fuel seeds parts x s e :
-  gen_tree_run_sprout_for1 c fuel seeds parts x s e = hib_body seeds x s e.
+Lemma hib_body_eq c fuel seeds x s e :
+  gen_tree_run_sprout_for1 c fuel seeds x s e = hib_body seeds x s e.
 Proof. unfold gen_tree_run_sprout_for1, hib_body. dsolve. Qed.
-Lemma hib_loop c fuel seeds parts xs s e :
-  for_ xs (gen_tree_run_sprout_for1 c fuel seeds parts) s e = for_ xs (hib_body seeds) s e.
+Lemma hib_loop c fuel seeds xs s e :
+  for_ xs (gen_tree_run_sprout_for1 c fuel seeds) s e = for_ xs (hib_body seeds) s e.
 Proof. apply for_ext. intros. apply hib_body_eq. Qed.
 #[export] Hint Rewrite hib_loop : gendrv.
 Theorem gen_tree_run_sprout_eq c fuel s e : gen_tree_run_sprout c fuel s e = run_sprout c s e.
